@@ -143,6 +143,9 @@ def family(t, sd):
     for j, e in enumerate(logs):
         doms = profs[0]
         items.append({'model': gen.mk_model('max' if j % 2 else 'min', ['+', gen.var('p'), gen.var('q')], [{'assert': e}], doms), 'style': styles[j % 3]})
+        if "'implies'" in str(e) or "'iff'" in str(e):
+            # the same assertion relying on the documented associativity of the shared implies / iff level
+            items.append({'model': gen.mk_model('min' if j % 2 else 'max', ['+', gen.var('p'), gen.var('q')], [{'assert': e}], doms), 'style': 'assoc'})
     # seeded composite models, bounded domains, names, where-constants, avg blocks
     seeds = (101, 102, 103) if t == 'quick' else tuple(1000 * sd + k for k in range(12))
     n = 1200 if t == 'quick' else 5000
